@@ -10,7 +10,7 @@ from sa.db import AnalysisError, ClassInfo, FunctionInfo, dotted, mangle, norm_s
 from sa.flow import Interp, WithEnter, call_of
 
 CLAIM = {
-    "text": "Decides the mutual-exclusion structure behind contiguous packets: in every class that owns a send lock, every write-side operation on the underlying endpoint (send_packet, send_packet_to, send_eof, close/aclose) is, on every path, inside the extent of that one lock, which is created once by a lock factory and never released early; low-level endpoints enclose their sender await in their ResourceGuard; in the TLS transport one caller's plaintext reaches the SSL object without any suspension point in between and every ciphertext write to the wrapped transport (BIO read + send_all in one expression) is inside the transport send lock; FairLock keeps its first-come-first-served shape; send paths do not spawn the write into another task. A flag that send_packet() tests under the send lock is, in a graceful close, stored only while that lock is held; the TLS write-all helper removes a chunk only after the write; the send loops make progress (rule of C04).",
+    "text": "Decides the mutual-exclusion structure behind contiguous packets: in every class that owns a send lock, every write-side operation on the underlying endpoint (send_packet, send_packet_to, send_eof, close/aclose) is, on every path, inside the extent of that one lock, which is created once by a lock factory and never released early; low-level endpoints enclose their sender await in their ResourceGuard; in the TLS transport one caller's plaintext reaches the SSL object without any suspension point in between and every ciphertext write to the wrapped transport (BIO read + send_all in one expression) is inside the transport send lock; FairLock keeps its first-come-first-served shape; send paths do not spawn the write into another task. A flag that send_packet() tests under the send lock is, in a graceful close, stored only while that lock is held; the TLS write-all helper removes a chunk only after the write; the send loops make progress (rule of C04). Round 4: explicit `lock.acquire()` calls are paired - released on every exit once acquired, release registered only when held, the body of the context manager runs only with the lock (path-sensitive on the boolean result, exact short-circuit evaluation).",
     "note": "Trusted: fairness / correctness of asyncio.Lock and threading.Lock themselves; that the endpoint's send is the only route to the wire (C08 covers the TLS confinement). Not decided: liveness.",
     "technique": "lock-held typestate and atomic-section (no may-suspend point between two atoms) by abstract interpretation over an exception-aware structured CFG; interprocedural may-suspend summaries; shape facts on FairLock",
 }
@@ -323,56 +323,32 @@ def check_fifo(eng, run):
 
 
 def check_lock_with_timeout(eng, run):
-    """the helper that takes a client's lock with a deadline registers the release only once the lock is really held"""
-    from sa.analyses.base import RuleAnalysis
+    """explicit acquire/release pairing: every function that calls `<lock>.acquire(...)` itself (the helper that takes a client's
+    lock with a deadline) releases the lock on every exit once it holds it, registers the release only when it holds it, and
+    runs its body only with the lock held (sa/analyses/pairing.py)"""
+    from sa.analyses.pairing import check_pairing
 
-    fn = eng.db.fn("lowlevel._utils:lock_with_timeout")
-    lockp = fn.params()[0].arg
-
-    class Acq(RuleAnalysis):
-        tokens = ("Exception",)
-
-        def __init__(self, e):
-            super().__init__(e)
-            self.viol = []
-            self.pushes = 0
-
-        def initial(self, f):
-            return [False]
-
-        def may_raise(self, node, fact):
-            return []
-
-        def transfer(self, node, fact):
-            c = call_of(node)
-            if isinstance(node, ast.Call) and isinstance(c.func, ast.Attribute) and c.func.attr in ("push", "callback", "enter_context") and any(lockp in ast.unparse(a) for a in c.args):
-                self.pushes += 1
-                if not fact and c.func.attr != "enter_context":
-                    self.viol.append(node)
-            if isinstance(node, WithEnter) and dotted(node.item.context_expr) == lockp:
-                self.pushes += 1
-                return [True]
-            return [fact]
-
-        def branch(self, test, fact):
-            t, neg = test, False
-            while isinstance(t, ast.UnaryOp) and isinstance(t.op, ast.Not):
-                neg = not neg
-                t = t.operand
-            if isinstance(t, ast.Call) and isinstance(t.func, ast.Attribute) and t.func.attr == "acquire" and dotted(t.func.value) == lockp:
-                return ([fact], [True]) if neg else ([True], [fact])
-            return [fact], [fact]
-
-    an = Acq(eng)
-    Interp(an, fn).run()
-    if an.pushes == 0:
-        raise AnalysisError("anchor vanished: release registration in lock_with_timeout")
-    for v in an.viol[:1]:
-        run.finding("C12.span", fn, _stmt_at(fn, v.lineno), "the release of the lock is registered on a path on which the lock has not been acquired: when the acquire times out, the exit stack releases a lock held by another thread, which then sends concurrently with the next caller (interleaved packets)")
-    run.ob("C12.span", f"{fn.short}:release-registered-only-when-held", not an.viol, registrations=an.pushes)
+    n = 0
+    for fn in eng.db.all_functions():
+        if isinstance(fn.node, ast.Lambda) or fn.name in ("__aenter__", "__enter__", "__aexit__", "__exit__"):
+            continue
+        locks = set()
+        for c in own_nodes(fn.node):
+            if isinstance(c, ast.Call) and isinstance(c.func, ast.Attribute) and c.func.attr == "acquire" and isinstance(c.func.value, ast.Name):
+                locks.add(c.func.value.id)
+        for lk in sorted(locks):
+            n += 1
+            an, probs = check_pairing(eng, fn, lk)
+            for node, why in probs[:2]:
+                st = _stmt_at(fn, node if isinstance(node, int) else getattr(node, "lineno", fn.node.lineno))
+                run.finding("C12.span", fn, st, f"{why} (lock `{lk}`): the next holder then runs concurrently with a sender / later callers never get the lock")
+            run.ob("C12.span", f"{fn.short}:{lk}:acquire-release-paired", not probs, acquires=an.acquires, registrations=an.registrations, yields=an.yields)
+    run.floor("C12.span functions acquiring a lock explicitly", n, 1)
 
 
 def run(eng, run):
+    from sa.anchors import verify as _verify_anchor_names
+    _verify_anchor_names(eng, run)
     run.not_decided += NOT_DECIDED
     check_lock_with_timeout(eng, run)
     check_held(eng, run)
